@@ -461,8 +461,8 @@ class BasicContiguousVector<cntgs::Options<Option...>, Parameter...>
     template <std::size_t... I>
     void emplace_at(std::size_t i, const reference& element, std::index_sequence<I...>)
     {
+        // relocates: the objects of `element` are moved from and destroyed one by one
         locator_->emplace_at(i, memory_begin(), locator_.fixed_sizes(), std::move(cntgs::get<I>(element))...);
-        ElementTraits::destruct(element);
     }
 
     constexpr void steal(BasicContiguousVector&& other) noexcept
